@@ -7,6 +7,8 @@ retreat is covered by prior advance (abstract interpretation with lower bounds o
 (R1.4) only eval_error leaves parse(), nothing leaves a destructor / noexcept function of the parser.
 Not decided: termination of the lexer/parser loops; that the tree accounts for each byte beyond R1.1.
 """
+import re
+
 from ..ir import walk, strip_targs, AnalysisBroken
 from ..flow import FnFlow, strip_casts, expr_str, always_exits, uncond_exprs
 from ..absint import AbsInt, Throw
@@ -629,6 +631,42 @@ def run(chk):
     if len(guarded) < 30:
         raise AnalysisBroken("C01 R1.2: only %d depth-guarded parser functions found (expected >= 30)" % len(guarded))
     chk.touched(members)
+
+    # ------------------------------------------------------------------ R1.7 tree depth is bounded too
+    r7 = chk.rule("R1.7", "the depth of the syntax tree is bounded by the parse-depth limit: no parser loop wraps the node built so far into a new parent per iteration (build_match with a loop-invariant stack mark) without counting the iteration against the limit",
+                  "deep trees never overflow the native stack inside parse(): the recursive passes that run there (the optimizer, the declaration search) recurse to the depth of the tree")
+    nwrap = 0
+    for g in members:
+        if fkey(g) not in keys:
+            continue
+        decl_line = {v["vid"]: d for d in walk(g["body"]) if d.get("k") == "decl" for v in d["vars"]}
+        for lp in walk(g["body"]):
+            if lp.get("k") not in ("while", "for", "do"):
+                continue
+            inner = list(walk(lp.get("body") or {}))
+            inner_ids = {id(x) for x in inner}
+            wraps = []
+            for n in inner:
+                if n.get("k") == "call" and n.get("name") == "build_match" and n.get("args"):
+                    a0 = strip_casts(n["args"][0])
+                    d = decl_line.get(a0.get("vid")) if a0.get("k") == "ref" else None
+                    if d is not None and id(d) not in inner_ids and not any(x.get("k") == "assign" and strip_casts(x["lhs"]).get("vid") == a0.get("vid") for x in inner):
+                        wraps.append(n)
+            # only the outermost loop that contains the wrap decides
+            if not wraps or any(id(lp) in {id(y) for y in walk(o.get("body") or {})} for o in walk(g["body"]) if o.get("k") in ("while", "for", "do") and o is not lp and
+                                any(id(w) in {id(z) for z in walk(o.get("body") or {})} for w in wraps)):
+                continue
+            nwrap += 1
+            counted = any(d.get("k") == "decl" and any(strip_targs(prog.T(g, v["t"])).endswith("::Depth_Counter") for v in d["vars"]) for d in inner)
+            kinds = sorted({(re.search(r"(\w+)_AST_Node", ((prog.decl(g, w.get("fn")) or {}).get("targs") or ["?"])[0]) or re.search(r"(\?)", "?")).group(1) for w in wraps})
+            short = strip_targs(g["q"]).split("::")[-1]
+            r7.ob("%s/the chain loop that builds %s counts each link against the depth limit" % (short, ", ".join(kinds)), counted, "%s:%d" % (g["file"], lp["l"]), g["q"],
+                  "each iteration wraps everything built so far (stack mark taken before the loop) into a new %s node and no Depth_Counter is constructed per iteration: "
+                  "a chain of n links yields a tree of depth n, built without recursion, and the recursive passes inside parse() then need n native frames" % "/".join(kinds))
+    r7.anchor(nwrap >= 2, "parser loops that nest the previous result per iteration (found %d)" % nwrap)
+    orec = [g for g in prog.fns if g["name"] == "contains_var_decl_in_scope" and g["q"].startswith("chaiscript::optimizer::") and g["tk"] != "pattern"]
+    r7.anchor(orec and any(n.get("k") == "call" and n.get("name") == "contains_var_decl_in_scope" for n in walk(orec[0]["body"])), "a recursive tree walk that runs inside parse() (optimizer::contains_var_decl_in_scope)")
+    r7.note("recursive tree walks inside parse(): optimizer::contains_var_decl_in_scope and Optimizer::optimize recurse once per tree level")
 
     # ------------------------------------------------------------------ R1.3 cursor discipline
     r3 = chk.rule("R1.3", "cursor discipline: raw buffer pointers are private to Position and dereferenced only under the end test; every retreat (--, -=, - n) and every Position::str range is covered by prior advance on all paths",
